@@ -342,12 +342,14 @@ def eval_odd_names(env, group):
     no valid UTF-8 (they must not be taken for one directory)"""
     holder = env.newdir('c18o')
     R = os.path.join(holder, 'R')
-    for d in ('a/r', 'a/t', 'b/r', 'b/t', 'o'):
+    for d in ('a/r', 'a/t', 'b/r', 'b/t', 'o', 'c/r', 'e/r', 'e/s'):
         os.makedirs(os.path.join(R, d))
-    for f in ('a/t/fa', 'b/t/fb'):
+    for f in ('a/t/fa', 'b/t/fb', 'e/t'):
         open(os.path.join(R, f), 'w').close()
     os.symlink('../t', os.path.join(R, 'a/r/l'))
-    os.link(os.path.join(R, 'a/r/l'), os.path.join(R, 'b/r/l'), follow_symlinks=False)
+    # (under c the same text names nothing, under e a file)
+    for other in ('b/r/l', 'c/r/l', 'e/r/l', 'e/s/l2'):
+        os.link(os.path.join(R, 'a/r/l'), os.path.join(R, other), follow_symlinks=False)
     for n, f in ((b'\xff', b'x'), (b'\xfe', b'y'), (b'z\xff\xfe', b'w')):
         os.mkdir(os.path.join(os.fsencode(R), b'o', n))
         open(os.path.join(os.fsencode(R), b'o', n, f), 'w').close()
